@@ -215,6 +215,9 @@ def run(repo: Repo, tier: str) -> Report:
                or (bool(rets) and rets[-1].value.key().startswith(f"tuple[median[{st[0].arr}];")), f"code = {rets[-1].value.key()[:80] if rets else None}",
                rets[-1].stmt if rets else "return")
 
+    from ..rules import no_early_exit
+    for fn_ in ("mk_score", "mk_variance_s", "mk_sens_slope", "mann_kendall_trend_yxt"):
+        no_early_exit(rep, SC[fn_], FILE, fn_, "pair / tie / pixel loops")
     # ------------------------------------------------------------ use-shape rule
     for fn in ("mk_score", "mk_variance_s"):
         k = K[fn]
